@@ -397,9 +397,11 @@ def plan(tier, seed):
   sig_groups = [[2], [6], [5], [1, 3], [4, 17], [18, 19], [7, 12, 0, 99]]
   for nm, _ in _ecdsa_checks(w) + [('CheckIssuerKey', None), ('CheckAllECDSASigs', None)]:
     slow = nm in ('CheckLCGNonceJavaUtilRandom', 'CheckAllECDSASigs', 'CheckIssuerKey')
+    # all 10^4..10^5 ordered pairs are affordable only for the checks that cost milliseconds
+    full_ok = not slow and nm != 'CheckLCGNonceGMP'
     for g in sig_groups:
-      mode = 'full' if (thorough and not slow) else ('sparse' if not slow or thorough
-                                                       else 'singles')
+      mode = 'full' if (thorough and full_ok) else ('sparse' if not slow or thorough
+                                                      else 'singles')
       T.append(Task('ecdsa-batches', 'ecdsa', {'check': nm, 'cids': g, 'mode': mode},
                     complete=(mode == 'full'),
                     bound='signatures: 9 known + 4 unknown/binary curve ids x 5 (r,s) x 5 hash '
